@@ -252,7 +252,8 @@ impl<'a> Walk<'a> {
         Toplevel::Interface(i) => {
           for mem in &i.members.members {
             for p in mem.parameters.parameters.iter() {
-              self.push(&p.name, "param", false, false, None);
+              // parameter of a method signature of an interface
+              self.push(&p.name, "iparam", false, false, None);
             }
           }
         }
